@@ -6,9 +6,13 @@ parameter of the property, a second, sparse but fixed axis: every size in SIZES 
 enumeration over a stated alphabet - no sampling - and the evidence lists the alphabet used.
 """
 
-# around 2^8, 2^12 (common block size), 2^13, 2^16
-SIZES_QUICK = [63, 64, 65, 255, 256, 257, 4095, 4096, 4097, 8193, 65536]
-SIZES_THOROUGH = SIZES_QUICK + [127, 128, 129, 511, 512, 513, 1023, 1024, 1025, 8191, 8192, 12288, 16385, 65535, 65537, 131073]
+# around 2^6, 2^8, 2^10..2^13 (common block sizes, with some sizes in between), 2^16
+SIZES_QUICK = [63, 64, 65, 255, 256, 257, 1023, 1025, 2049, 3073, 4095, 4096, 4097, 8193, 65536]
+SIZES_THOROUGH = SIZES_QUICK + [127, 128, 129, 511, 512, 513, 1024, 1500, 2047, 2048, 3000, 3071, 3072, 5000, 6000, 8191, 8192, 12288, 16385, 65535, 65537, 131073]
+
+
+# beyond 2**20: only for checks where such an execution costs well under a second
+BIG = [1048575, 1048577, 2097153]
 
 
 def sizes(tier):
